@@ -2,7 +2,7 @@ import NanoVerif.Model.Proto
 import NanoVerif.Model.Parameter
 import NanoVerif.Model.Configurable
 import NanoVerif.Gen.FactoryParams
-/-! driver families `param`, `config`, `factory` (C19): one self-contained op per line; scalars are `XF`
+/-! driver families `param`, `config`, `factory`, `owner` (C19): one self-contained op per line; scalars are `XF`
     (exact doubles), read from / printed as 16 hex digits of the bit pattern -/
 namespace NanoVerif.Driver.Parameter
 open NanoVerif.Proto NanoVerif.Param NanoVerif.Gen
@@ -268,9 +268,21 @@ def factoryIds (f : String) : Option String :=
     some (String.intercalate " " ("ok" :: toString ids.length :: ids.map (fun i => s!"{showQ i} 1")) ++ " 0")
   else none
 
+def showTree : Tree XF → String
+  | .node ty ps ks =>
+    s!"{showQ ty} {showParams ps} " ++ String.intercalate " " (toString ks.length :: showKids ks)
+where
+  showKids : List (String × Tree XF) → List String
+    | [] => []
+    | k :: ks => s!"{k.1} {showTree k.2}" :: showKids ks
+
+/-- what `factory.get(id)` hands out, owned objects included -/
+def defaultTree (f id : String) : Option (Tree XF) := resolve FactoryParams.table 4 f id
+
 def factoryWalk (ts : Toks) : Option String := do
   let (f, ts) ← pStr ts
   let (id, ts) ← pQ ts
+  let (mask, ts) ← pNat ts
   let (ic, ts) ← pList pInt ts
   let (fc, ts) ← pList pXF ts
   let (probe, ts) ← match ts with
@@ -278,12 +290,107 @@ def factoryWalk (ts : Toks) : Option String := do
     | ["probe", "0"] => some (false, [])
     | _ => none
   guard ts.isEmpty
-  match FactoryParams.table.find? (fun e => e.factory == f && e.id == id) with
+  guard (FactoryParams.chunks.any (fun ch => ch.any (·.factory == f)) || f == "generator" || f == "function")
+  match defaultTree f id with
   | none => pure "ok missing"
-  | some e =>
-    let after := e.params.map (fun p => (p.1, modify ic fc p.2))
-    pure (s!"ok {showQ e.typeId} {showParams e.params} cloneeq 1 probe {if probe then "1" else "-1"} " ++
+  | some t =>
+    -- the parameters selected by the mask are moved away from their defaults before the clone is taken
+    let pre := t.params.mapIdx (fun k p => if mask.testBit (k % 62) then (p.1, modify ic fc p.2) else p)
+    let after := pre.map (fun p => (p.1, modify ic fc p.2))
+    pure (s!"ok {showTree t} pre {showParams pre} cloneeq 1 probe {if probe then "1" else "-1"} " ++
       s!"origsame 1 reclone 1 clone {showParams after}")
+
+/-! ### family `owner`: histories over objects that own other objects -/
+
+def factoryKinds : List String := ["solver", "lsearch0", "lsearchk", "tuner", "splitter", "wlearner"]
+
+/-- `factory.get(id)` for the six kinds the histories use, default construction for `ml::params_t` / `gboost_model_t` -/
+def lookup (kind id : String) : Option (Tree XF) :=
+  if kind == "params" || kind == "gboost" then
+    if id == kind then (FactoryParams.owners.find? (·.1 == kind)).map (·.2) else none
+  else if factoryKinds.contains kind then defaultTree kind id
+  else none
+
+def pOOp : P (OOp XF)
+  | "new" :: ts => do
+    let (kind, ts) ← pStr ts
+    let (id, ts) ← pQ ts
+    guard (factoryKinds.contains kind || kind == "params" || kind == "gboost")
+    pure (.new kind id, ts)
+  | "set" :: ts => do
+    let (v, ts) ← pNat ts
+    let (name, ts) ← pQ ts
+    let (op, ts) ← pOp ts
+    guard op.isAssign
+    pure (.set v name op, ts)
+  | "inst" :: ts => do
+    let (d, ts) ← pNat ts
+    let (child, ts) ← pStr ts
+    let (s, ts) ← pNat ts
+    pure (.inst d child s, ts)
+  | "instid" :: ts => do
+    let (d, ts) ← pNat ts
+    let (child, ts) ← pStr ts
+    let (id, ts) ← pQ ts
+    pure (.instid d child id, ts)
+  | "protos" :: ts => do
+    let (v, ts) ← pNat ts
+    let (srcs, ts) ← pList pNat ts
+    pure (.protos v srcs, ts)
+  | "ext" :: ts => do
+    let (v, ts) ← pNat ts
+    let (child, ts) ← pStr ts
+    pure (.ext v child, ts)
+  | "clone" :: ts => do
+    let (v, ts) ← pNat ts
+    pure (.clone v, ts)
+  | "assign" :: ts => do
+    let (d, ts) ← pNat ts
+    let (s, ts) ← pNat ts
+    pure (.assign d s, ts)
+  | "probe" :: ts => do
+    let (a, ts) ← pNat ts
+    let (b, ts) ← pNat ts
+    pure (.probe a b, ts)
+  | _ => none
+
+def showEnv (env : Env XF) : String :=
+  String.intercalate " " (toString env.length :: env.map (fun v => s!"{v.1} {showTree v.2}"))
+
+/-- the answer to `probe a b`: objects with equal configuration trees behave identically (`1`, or `-1` when the
+    probe does not apply to the kind / the object does not reproduce itself); for different configurations the
+    implementation's answer is taken as it is -/
+def probeAnswer (env : Env XF) (a b : Nat) (impl : Int) : Int :=
+  match env[a]?, env[b]? with
+  | some (_, ta), some (_, tb) => if showTree ta == showTree tb && impl == 0 then 1 else impl
+  | _, _ => impl
+
+def ownerRun : Env XF → List (OOp XF) → List Int → String → Option String
+  | _, [], [], acc => some acc
+  | _, [], _ :: _, _ => none
+  | env, op :: ops, answers, acc =>
+    let r := ostep lookup env op
+    match r.2, op with
+    | .bad, _ => none
+    | .probe, .probe a b =>
+      match answers with
+      | [] => none
+      | x :: rest =>
+        ownerRun r.1 ops rest (acc ++ s!" ; probe {probeAnswer env a b x} / {showEnv r.1}")
+    | .probe, _ => none
+    | .ok, _ => ownerRun r.1 ops answers (acc ++ s!" ; ok / {showEnv r.1}")
+    | .missing, _ => ownerRun r.1 ops answers (acc ++ s!" ; missing / {showEnv r.1}")
+    | .res x, _ => ownerRun r.1 ops answers (acc ++ s!" ; {showRes x} / {showEnv r.1}")
+    | .throw e, _ => ownerRun r.1 ops answers (acc ++ s!" ; throw {showErr e} / {showEnv r.1}")
+
+def ownerHist (ts : Toks) : Option String := do
+  let (n, ts) ← pNat ts
+  let (ops, ts) ← pMany pOOp n ts
+  let (answers, ts) ← match ts with
+    | "probes" :: ts => pList pInt ts
+    | _ => none
+  guard ts.isEmpty
+  ownerRun [] ops answers "ok"
 
 def handle (fam : String) (ts : Toks) : Option String :=
   match fam, ts with
@@ -291,6 +398,7 @@ def handle (fam : String) (ts : Toks) : Option String :=
   | "config", "hist" :: ts => configHist ts
   | "factory", ["ids", f] => factoryIds f
   | "factory", "walk" :: ts => factoryWalk ts
+  | "owner", "hist" :: ts => ownerHist ts
   | _, _ => none
 
 end NanoVerif.Driver.Parameter
